@@ -277,7 +277,7 @@ func (c c08Cfg) apply(r *rig) {
 
 func TestVerifC08Headers(t *testing.T) {
 	L := ev.Begin("C08", "c08-headers", "exploration",
-		"header-related configuration (client-ip header none/custom/X-Real-Ip/X-Forwarded-For x TLS header none/set (canonical and non-canonical spellings) x LocalIP/HSTS variants x route host option none/name/dst) x connection plain/TLS x every subset of 8 fabio-managed headers forged by the client (2^8) plus repeated, lower-case, empty and blank-line variants x Host with/without port and as IPv6 literal x IPv4/IPv6 peer x a Connection header that names the managed headers as hop-by-hop, served by the real HTTPProxy to a recording upstream; oracle = the six clauses of the statement. non-trivial = at least one forged header or a TLS connection")
+		"header-related configuration (client-ip header none/custom/X-Real-Ip/X-Forwarded-For x TLS header none/set (canonical and non-canonical spellings) x LocalIP/HSTS variants x route host option none/name/dst) x connection plain/TLS x every subset of 8 fabio-managed headers forged by the client (2^8) plus repeated, lower-case, empty and blank-line variants x Host with/without port and as IPv6 literal x IPv4/IPv6 peer x a Connection header that names the managed headers as hop-by-hop, served by the real HTTPProxy to a recording upstream; plus redirect routes (to https and http targets) on plain and TLS connections; oracle = the six clauses of the statement. non-trivial = at least one forged header or a TLS connection")
 	cfgs := c08Configs()
 	sets := c08HeaderSets(true)
 	type job struct {
@@ -356,6 +356,39 @@ func TestVerifC08Headers(t *testing.T) {
 		}
 		c08Check(L, j.cfg, j.conn, j.v, j.host, j.peer, r.upAddr, s, rec.Header())
 	})
+	// responses fabio writes itself (redirect routes, also to an https target): HSTS only on TLS connections
+	rr := newRig()
+	defer rr.close()
+	for _, c := range cfgs {
+		if c.stsAge == 0 {
+			continue
+		}
+		for _, target := range []string{"https://secure.example/$path", "http://plain.example/"} {
+			for _, conn := range []c08Conn{c08Plain, c08TLS} {
+				for _, xfp := range []string{"", "https"} {
+					c.apply(rr)
+					rr.setTable("route add redir / " + target + " opts \"redirect=301\"\n")
+					var cs *tls.ConnectionState
+					if conn == c08TLS {
+						cs = &tls.ConnectionState{Version: tls.VersionTLS12, CipherSuite: tls.TLS_ECDHE_RSA_WITH_AES_128_GCM_SHA256, HandshakeComplete: true}
+					}
+					var hdr [][2]string
+					if xfp != "" {
+						hdr = [][2]string{{"X-Forwarded-Proto", xfp}}
+					}
+					rec, _, _, err := rr.do(rawRequest("GET", "/x", "client.example", hdr, nil, false), "10.9.8.7:4711", cs)
+					if err != nil {
+						panic(err)
+					}
+					L.Case()
+					L.NontrivialKey(fmt.Sprint("redirect", c.stsAge, target, conn, xfp))
+					if sts := rec.Header().Get("Strict-Transport-Security"); conn == c08Plain && sts != "" {
+						L.Violation("hsts-on-plain-connection/redirect-route", map[string]interface{}{"config": fmt.Sprintf("%+v", c), "redirect_target": target, "x_forwarded_proto": xfp, "status": rec.Code, "strict_transport_security": sts})
+					}
+				}
+			}
+		}
+	}
 	L.End(true)
 }
 
